@@ -54,6 +54,9 @@ func (r *Recorder) BuildReport(now time.Time, maxSize int) *rtcp.CCFeedbackRepor
 	}
 	maxReportBlocks := max((maxSize-12-(8*streamCount))/2, 0)
 	maxReportBlocksPerStream := maxReportBlocks / streamCount
+	// a block with an odd number of reports is padded to an even number when
+	// marshalled: only an even count is guaranteed to fit the budget
+	maxReportBlocksPerStream -= maxReportBlocksPerStream % 2
 
 	for _, log := range r.streams {
 		block := log.metricsAfter(now, int64(maxReportBlocksPerStream))
